@@ -77,6 +77,34 @@ type c06Fault struct {
 	ord  int
 	kind int
 	frac int // cut position in per-mille of the cuttable length
+	// kind == c06FStatus (round 3): the request is answered with this HTTP
+	// status and a body of the given class
+	status int
+	body   int
+}
+
+// Round 3: a fetch answered with a specific non-200 status and an empty or
+// plausible body, for ONE request of the sweep while everything else is healthy.
+const c06FStatus = 100
+
+var c06IndexStatuses = []int{204, 301, 400, 401, 403, 404, 410, 500, 502, 503}
+var c06ErrStatuses = []int{400, 401, 403, 404, 410, 500, 502, 503}
+
+const (
+	c06BodyEmpty      = iota // no body at all
+	c06BodyIntact            // the complete well-formed body a healthy server would send
+	c06BodyEmptyIndex        // "\n": a well-formed index of an empty volume (JSON requests: "{}\n")
+	c06BodyErrorText         // what a keepstore / API server sends with an error status
+	c06NBodies
+)
+
+var c06BodyNames = []string{"empty_body", "intact_body", "wellformed_empty_answer", "error_text_body"}
+
+func (f *c06Fault) name() string {
+	if f.kind == c06FStatus {
+		return fmt.Sprintf("http%d_%s", f.status, c06BodyNames[f.body])
+	}
+	return c06FaultNames[f.kind]
 }
 
 type c06ReqRec struct {
@@ -281,6 +309,26 @@ func (tr *c06WorldTransport) RoundTrip(req *http.Request) (*http.Response, error
 		}
 	}
 	switch f.kind {
+	case c06FStatus:
+		var b []byte
+		switch f.body {
+		case c06BodyIntact:
+			b = body
+		case c06BodyEmptyIndex:
+			b = []byte("\n")
+			if !isIndex {
+				b = []byte("{}\n")
+			}
+		case c06BodyErrorText:
+			b = []byte(http.StatusText(f.status) + "\n")
+			if !isIndex {
+				b = []byte(fmt.Sprintf(`{"errors":[%q]}`+"\n", http.StatusText(f.status)))
+			}
+		}
+		if f.status == 204 {
+			b = nil // a 204 response cannot carry a body
+		}
+		return mk(f.status, b), nil
 	case c06F500:
 		return mk(500, []byte(`{"errors":["c06 injected failure"]}`+"\n")), nil
 	case c06FConn:
@@ -506,16 +554,47 @@ func TestVerifC06SweepAbort(t *testing.T) {
 		})
 		labels := map[string]bool{}
 		injected, asserted := 0, 0
-		for _, tg := range targets {
+		statusIdx, statusOther := 0, 0
+		// Round 3: per index request every status of c06IndexStatuses with one
+		// drawn body class, and 404 with every body class; per other fetch
+		// request one drawn error status with a drawn body class.
+		statusBody := make([]int, len(c06IndexStatuses))
+		for i := range statusBody {
+			statusBody[i] = int(rapid.Uint64().Draw(t, fmt.Sprintf("bodyClassFor%d", c06IndexStatuses[i])) >> 7 % c06NBodies)
+		}
+		otherPick := rapid.Uint64().Draw(t, "otherStatusPick") >> 5
+		for ti, tg := range targets {
+			var faults []*c06Fault
 			for kind := 0; kind < c06NFaults; kind++ {
 				if kind == c06FBlankLine && tg.Kind != "index" {
 					continue
 				}
-				f := &c06Fault{key: tg.Key, ord: tg.Ord, kind: kind, frac: frac}
+				faults = append(faults, &c06Fault{key: tg.Key, ord: tg.Ord, kind: kind, frac: frac})
+			}
+			switch tg.Kind {
+			case "index":
+				for i, st := range c06IndexStatuses {
+					faults = append(faults, &c06Fault{key: tg.Key, ord: tg.Ord, kind: c06FStatus, status: st, body: statusBody[i]})
+					if st == 404 {
+						for b := 0; b < c06NBodies; b++ {
+							if b != statusBody[i] {
+								faults = append(faults, &c06Fault{key: tg.Key, ord: tg.Ord, kind: c06FStatus, status: st, body: b})
+							}
+						}
+					}
+				}
+			case "":
+			default:
+				x := otherPick + uint64(ti)*7
+				faults = append(faults, &c06Fault{key: tg.Key, ord: tg.Ord, kind: c06FStatus,
+					status: c06ErrStatuses[x%uint64(len(c06ErrStatuses))], body: int(x / 8 % c06NBodies)})
+			}
+			for _, f := range faults {
+				kind := f.kind
 				_, err, tr := c06RunSweep(w, f, safe)
 				ctx := func() string {
 					return fmt.Sprintf("fault %s at request %q #%d (%s %s)\nRun error: %v\nPUTs seen: %+v\nworld:\n  %s\nfault-free request list:\n%sfaulted run request list:\n%s",
-						c06FaultNames[kind], tg.Key, tg.Ord, tg.Kind, tg.Sub, err, tr.puts, strings.Join(w.desc, "\n  "), c06LogString(dry.log), c06LogString(tr.log))
+						f.name(), tg.Key, tg.Ord, tg.Kind, tg.Sub, err, tr.puts, strings.Join(w.desc, "\n  "), c06LogString(dry.log), c06LogString(tr.log))
 				}
 				if tr.infra != "" {
 					t.Fatalf("VERIF-INFRA: stub could not serve a request: %s\n%s", tr.infra, ctx())
@@ -529,7 +608,21 @@ func TestVerifC06SweepAbort(t *testing.T) {
 					continue
 				}
 				asserted++
-				labels["fault_"+c06FaultNames[kind]] = true
+				if kind == c06FStatus {
+					if tg.Kind == "index" {
+						labels[fmt.Sprintf("index_fetch_answered_with_status_%d", f.status)] = true
+						labels["index_fetch_status_fault_"+c06BodyNames[f.body]] = true
+						if f.status == 404 {
+							labels["index_fetch_404_"+c06BodyNames[f.body]] = true
+						}
+						statusIdx++
+					} else {
+						labels[fmt.Sprintf("other_fetch_answered_with_status_%d", f.status)] = true
+						statusOther++
+					}
+				} else {
+					labels["fault_"+c06FaultNames[kind]] = true
+				}
 				labels["failed_"+tg.Kind] = true
 				if err == nil {
 					t.Fatalf("Balancer.Run returned nil although a %s request failed\n%s", tg.Kind, ctx())
@@ -570,6 +663,8 @@ func TestVerifC06SweepAbort(t *testing.T) {
 		stats.InfoAdd("sweep_faults_injected", int64(injected))
 		stats.InfoAdd("sweep_faults_asserted", int64(asserted))
 		stats.InfoAdd("sweep_requests_numbered", int64(len(targets)))
+		stats.InfoAdd("sweep_index_status_faults_asserted", int64(statusIdx))
+		stats.InfoAdd("sweep_other_fetch_status_faults_asserted", int64(statusOther))
 		if stats.WantSample("sweep_scenario") {
 			stats.Sample("sweep_scenario", map[string]interface{}{
 				"world": w.desc, "requests": strings.Split(strings.TrimSpace(c06LogString(dry.log)), "\n"),
